@@ -630,6 +630,9 @@ public:
   virtual void array_assign(const variable_t &lhs,
                             const variable_t &rhs) override {
 
+    if (lhs == rhs) {
+      return;
+    }
     bytes_t size = get_size(rhs);
     if (size.is_constant()) {
       set_size(lhs, size.get_constant());
@@ -643,6 +646,11 @@ public:
         assert(ty.is_integer() || ty.is_real());
         m_base_dom.assign(scalar_lhs, scalar_rhs);
       }
+    } else {
+      // Nothing is known about the contents of rhs so nothing is
+      // known about the new contents of lhs: the old summary of lhs
+      // must not survive the assignment.
+      this->operator-=(lhs);
     }
   }
 
